@@ -26,6 +26,7 @@ META = {
     "and the missing sheet raise; unknown, repeated or empty config parts raise; -m is restricted to the country's validated methods, defaults to 'not given' and conflicts "
     "with an [accounting_methods] section by exit 1; everything from Configuration(...) to the generator call sits in one try whose handler exits non-zero, every sys.exit "
     "carries a non-zero constant, generators run only after all assets are computed, and the row loop cannot stop before the end of the sheet.",
+    "restated": "each data row is added to its set as soon as it is read, so the structure guards that test a set's emptiness see it (C11.d)",
     "not_decided": "completeness of the guard set beyond the fault classes the statement lists; the header-row heuristic (a first data row that fails to parse is taken for a header: by design upstream).",
     "assumptions": ["argparse rejects values outside choices with exit status 2", "SystemExit is not caught by 'except Exception'"],
 }
